@@ -94,14 +94,14 @@ func fieldName(v ssa.Value) string {
 			return ""
 		}
 		tn := typeName(derefType(f.X.Type()))
-		return tn + "." + aliasedField(tn, st.Field(f.Field).Name())
+		return qualifiedField(tn, st.Field(f.Field).Name())
 	case *ssa.Field:
 		st, _ := f.X.Type().Underlying().(*types.Struct)
 		if st == nil {
 			return ""
 		}
 		tn := typeName(f.X.Type())
-		return tn + "." + aliasedField(tn, st.Field(f.Field).Name())
+		return qualifiedField(tn, st.Field(f.Field).Name())
 	}
 	return ""
 }
